@@ -31,6 +31,8 @@ class RandomStub:
 def h_kernel(t, part):
     asyncio_ = part['async']
     K = part['K']
+    if part.get('float') == 'ieee' and getattr(t, 'symbolic', False):
+        t.float_model = 'ieee'
     d = t.real(0.1, 4.0)
     m = t.real(0.1, 8.0)
     f = t.real(0.0, 1.0)
